@@ -17,7 +17,7 @@ type letter struct {
 
 func exhaustiveAlphabet() []Msg {
 	t0 := gen.Program{
-		Vars: []gen.VarDecl{{Type: "account", Name: "a"}, {Type: "monetary", Name: "b"}},
+		Vars:  []gen.VarDecl{{Type: "account", Name: "a"}, {Type: "monetary", Name: "b"}},
 		Stmts: []gen.Stmt{{K: "send", Amt: gen.Var("b"), Src: &gen.Src{K: "acc", E: gen.Var("a")}, Dst: &gen.Dst{K: "acc", E: gen.Acc("x")}}},
 	}.Print()
 	t1 := gen.Program{
